@@ -13,6 +13,10 @@
 //!      every single-byte substitution and insertion from an 18-symbol alphabet;
 //!  (E) all byte strings of length <= 3 over a 20-symbol alphabet; all sequences of <= 4 tokens
 //!      from a 16-token list.
+//!  (F) transient I/O errors: 5 multi-line zone texts delivered 1 / 7 octets / one line per
+//!      read() call by a stream whose k-th read() call fails once (io::ErrorKind::Other) and
+//!      which then continues to deliver the rest of the text, for EVERY k up to the number of
+//!      read() calls the undisturbed parse makes.
 //! Every text is read three ways: whole slice, 1 byte per read() call, 7 bytes per read() call.
 //! Checked (from the property text only): no panic; termination (item cap); after the first Err
 //! item next() returns None; every yielded record has an absolute owner (well-formed uncompressed
@@ -29,6 +33,23 @@ use vq_bounded::{done, fail};
 mod wire_ref;
 
 const ITEM_CAP: usize = 10_000;
+
+/// A stream handing out at most `chunk` octets (`chunk` = 0: at most up to the next newline) per
+/// read() call whose read() call number `fail_at` (counted from 0) fails without consuming
+/// anything; later calls continue as if nothing had happened.  Counts its calls.
+struct Flaky<'a> { data: &'a [u8], chunk: usize, fail_at: usize, calls: &'a std::cell::Cell<usize> }
+impl Read for Flaky<'_> {
+    fn read(&mut self, buf: &mut [u8]) -> std::io::Result<usize> {
+        let call = self.calls.get();
+        self.calls.set(call + 1);
+        if call == self.fail_at { return Err(std::io::Error::new(std::io::ErrorKind::Other, "transient failure")); }
+        let want = if self.chunk > 0 { self.chunk } else { self.data.iter().position(|b| *b == b'\n').map_or(self.data.len(), |i| i + 1) };
+        let n = want.min(buf.len()).min(self.data.len());
+        buf[..n].copy_from_slice(&self.data[..n]);
+        self.data = &self.data[n..];
+        Ok(n)
+    }
+}
 
 /// A stream handing out at most `chunk` octets per read() call.
 struct Drip<'a> { data: &'a [u8], chunk: usize }
@@ -394,6 +415,45 @@ fn universe_e() {
     }
 }
 
+// ------------------------------------------------------------------------------ universe (F)
+
+const FLAKY_TEXTS: [&str; 2] = [
+    "a.example. 3600 IN A 192.0.2.1\nb.example. 3600 IN A 192.0.2.2\nc.example. 3600 IN TXT \"c\"\n",
+    "$ORIGIN example.\n\n; comment\n@ 60 IN NS ns\n\n  MX 10 (\n mail )\nns A 1.2.3.4\n\nmail AAAA ::1",
+];
+
+fn universe_f() {
+    let texts: Vec<&str> = FLAKY_TEXTS.iter().copied().chain(BASES.iter().copied().take(3)).collect();
+    for text in texts {
+        let text = text.as_bytes();
+        for (read_as, chunk) in [("1 octet per read()", 1usize), ("7 octets per read()", 7), ("one line per read()", 0)] {
+            for iterator in ["Parser", "Parser::records_only"] {
+                let run_one = |fail_at: usize| -> usize {
+                    let calls = std::cell::Cell::new(0);
+                    let r = catch_unwind(AssertUnwindSafe(|| {
+                        let p = Parser::new(Flaky { data: text, chunk, fail_at, calls: &calls });
+                        if iterator == "Parser" {
+                            drain(p, |line| match &line.content { LineContent::Record(rr) => Some(rr), LineContent::Include(_) => None })
+                        } else {
+                            drain(p.records_only(), |line| Some(&line.record))
+                        }
+                    }));
+                    let input = || (Input { text: show(text, None), octets: text.len(), read_as, iterator }, ("read() call failing once with ErrorKind::Other, then continuing", fail_at));
+                    match r {
+                        Err(_) => fail("[C24] zone-file parser panicked", &input(), &"panic", &"records, then at most one error, then the end"),
+                        Ok(Err((what, got, want))) => fail(&format!("[C24] {what}"), &input(), &got, &want),
+                        Ok(Ok(())) => {}
+                    }
+                    CASES.fetch_add(1, std::sync::atomic::Ordering::Relaxed);
+                    calls.get()
+                };
+                let undisturbed = run_one(usize::MAX);
+                for k in 0..=undisturbed { run_one(k); }
+            }
+        }
+    }
+}
+
 fn main() {
     std::panic::set_hook(Box::new(|_| {}));
     if std::env::var_os("BND_ZF_STATS").is_some() { let _ = HIST.set(Default::default()); }
@@ -402,6 +462,7 @@ fn main() {
     universe_c();
     universe_d();
     universe_e();
+    universe_f();
     if let Some(h) = HIST.get() { println!("note: yielded (class, type) -> count: {:?}", h.lock().unwrap()); }
     let cases = CASES.load(std::sync::atomic::Ordering::Relaxed);
     println!("note: {} records checked, {} runs ended in an error, {} RDATA texts in the pool",
@@ -413,5 +474,6 @@ fn main() {
 (C) TXT RDATA of 65535/65536/65537 octets (+-1, 4 shapes), generic `\\# 65534..65537`, 43 field positions x runs of 65535/65536/65537/70000, WKS with 65534..65537 ports, \
 character strings 254..257, labels 62..65, names 252..257 octets; \
 (D) 4 multi-record zone texts: every prefix, every 1-byte deletion, every 1-byte substitution and insertion from 18 symbols; \
-(E) all byte strings of length <= 3 over 20 symbols, all <= 4-token sequences over 16 tokens (bare and after a context-setting record)")
+(E) all byte strings of length <= 3 over 20 symbols, all <= 4-token sequences over 16 tokens (bare and after a context-setting record); \
+(F) 5 multi-line zone texts read 1 / 7 octets / one line per read() from a stream whose k-th read() call fails once (ErrorKind::Other) and then continues, every k <= number of read() calls of the undisturbed parse")
 }
